@@ -314,6 +314,9 @@ func Run(c *common.Ctx) error {
 			return err
 		}
 	}
+	if err := haltGrantNotReached(c, c.Rng.Fork()); err != nil {
+		return err
+	}
 	for i := 0; i < c.Pick(2, 6); i++ {
 		if err := haltReleaseWithoutPrimary(c, c.Rng.Fork(), i); err != nil {
 			return err
@@ -967,6 +970,91 @@ func demotion(c *common.Ctx, r *common.Rand, idx int) error {
 	time.Sleep(30 * time.Millisecond)
 	if ra := snapshot(rn, "db"); ra != rbefore {
 		c.Violate(key+":replica-moved", fmt.Sprintf("the replica moved from %+v to %+v although the primary published nothing", rbefore, ra), rep)
+	}
+	return nil
+}
+
+// aheadClient answers a halt lock request with the lock the primary granted, at a position one transaction further than
+// the primary is: what the replica sees when the primary committed once more and the stream has not delivered it yet.
+type aheadClient struct{ litefs.Client }
+
+func (a *aheadClient) AcquireHaltLock(ctx context.Context, primaryURL string, nodeID uint64, name string, lockID int64) (*litefs.HaltLock, error) {
+	hl, err := a.Client.AcquireHaltLock(ctx, primaryURL, nodeID, name, lockID)
+	if err == nil {
+		hl.Pos.TXID++
+	}
+	return hl, err
+}
+
+// haltGrantNotReached: the replica is granted the halt lock but does not reach the granted position in time; its request
+// fails. It is not the holder then: it refuses writes like any replica, and the primary is free again.
+func haltGrantNotReached(c *common.Ctx, r *common.Rand) error {
+	dir, err := os.MkdirTemp(c.OutDir, "c07g-")
+	if err != nil {
+		return err
+	}
+	defer os.RemoveAll(dir)
+	clu := cluster.New(dir, 2*time.Second)
+	clu.Opts = func(name string, s *litefs.Store) {
+		s.HaltAcquireTimeout = 200 * time.Millisecond
+		if name == "r" {
+			s.Client = &aheadClient{Client: s.Client}
+		}
+	}
+	defer clu.Close()
+	p, err := clu.Start("p", true)
+	if err != nil {
+		return err
+	}
+	if clu.WaitPrimary(5*time.Second) == nil {
+		return fmt.Errorf("no primary")
+	}
+	rn, err := clu.Start("r", false)
+	if err != nil {
+		return err
+	}
+	h := hist.NewOn(c, r.Fork(), hist.Config{PageSize: 512}, p.Store, p.Exits, "db", nil, 0, false)
+	if err := commitN(h, 2, false); err != nil {
+		return err
+	}
+	pp := p.Store.DB("db").Pos()
+	if !cluster.WaitPos(rn, "db", uint64(pp.TXID), uint64(pp.PostApplyChecksum), 10*time.Second) {
+		return fmt.Errorf("replica did not catch up")
+	}
+	rdb := rn.Store.DB("db")
+	_, aerr := rdb.AcquireRemoteHaltLock(ctx, 47)
+	c.Evaluations++
+	c.Distinct("halt-grant-not-reached")
+	rep := map[string]any{"kind": "readonly-halt-grant-not-reached", "acquire_error": fmt.Sprint(aerr)}
+	key := "C07:halt-grant-not-reached"
+	if aerr == nil {
+		return nil // reached after all: nothing to judge
+	}
+	before := snapshot(rn, "db")
+	cur, _ := lfs.ReadImage(filepath.Dir(rdb.DatabasePath()))
+	hr := hist.NewOn(c, r.Fork(), hist.Config{PageSize: 512}, rn.Store, rn.Exits, "db", cur, before.txid, false)
+	lfs.BusyTimeout = 100 * time.Millisecond
+	hr.Pager.RollbackOnCommitError = false
+	var ob hist.Obs
+	for tries := 0; tries < 100; tries++ {
+		st := hr.GenStep()
+		if st.Op != "rtx" {
+			continue
+		}
+		st.Outcome, st.ToWAL, st.Spill = 0, false, 0
+		ob = hr.Exec(st)
+		break
+	}
+	lfs.BusyTimeout = 3 * time.Second
+	after := snapshot(rn, "db")
+	if rdb.HasRemoteHaltLock() || rdb.Writeable() {
+		c.Violate(key+":believes", fmt.Sprintf("the request for the halt lock failed (%v); the replica still counts itself as the holder (holds=%v, writeable=%v)", aerr, rdb.HasRemoteHaltLock(), rdb.Writeable()), rep)
+	}
+	if after != before {
+		c.Violate(key+":changed", fmt.Sprintf("the request for the halt lock failed (%v); a transaction on the replica then changed its database: %+v -> %+v (the transaction answered %q)", aerr, before, after, ob.Err), rep)
+	}
+	if id := p.Store.DB("db").VerifHaltLockID(); id != 0 {
+		c.Violate(key+":primary-halted", fmt.Sprintf("the request failed on the replica and the primary still holds halt lock %d", id), rep)
 	}
 	return nil
 }
